@@ -126,6 +126,10 @@ def oracle(case, impl, side):
     if case["meta"]["stream"].endswith("permutation"):
         if res != exp:
             if case["meta"].get("proto") == "unreal2":
+                # the recorded finding is about the ORDER of players and rule values; a reordering that changes WHICH
+                # players or values come back (another number of them, another content) is something else
+                if res.startswith("Ok(") and sorted(res) != sorted(exp):
+                    return ("order-dependent:unreal2:content", "Unreal 2: a reordering of the same datagrams changed the content of the response, not only the order of its lists: got %s expected %s" % (res[:300], exp[:300]))
                 return ("order-dependent:unreal2", "Unreal 2: a reordering of the same datagrams changed the response (lists carry no sequence numbers)")
             if case["meta"]["stream"].startswith("gamespy"):
                 return ("order-dependent:" + case["meta"]["stream"].split("-")[0], "%s: a reordering of the same datagrams changed the result: got %s expected %s" % (case["meta"]["stream"], res[:200], exp[:200]))
